@@ -51,14 +51,27 @@ def new_fn(root=None):
     return A.find_fn(BC, "new", self_ty="Bytecode", root=root)
 
 
-def _arm_facts(arm, names):
+def store_closure(fn):
+    """(name, closure, let) of the register-byte writer `let mut store_reg = |i, r| { .. word[i] = r .. }`"""
+    out = []
+    for s_ in A.find(fn["body"], "Let"):
+        init = A.strip(s_.get("init") or {})
+        if init.get("k") == "Closure" and len(init.get("inputs", [])) == 2 and A.binding_name(s_["pat"]):
+            if any(A.strip(a["left"]).get("k") == "Index" and A.ident(A.strip(A.strip(a["left"])["e"])) == "word" for a in A.find(init["body"], "Assign")):
+                out.append((A.binding_name(s_["pat"]), init, s_))
+    if len(out) != 1:
+        raise A.AnchorLost("the closure that writes register bytes into `word` (`let mut store_reg = |i, r| ..`) in Bytecode::new")
+    return out[0]
+
+
+def _arm_facts(arm, names, store="store_reg"):
     """store_reg(i, x) calls, word[j] = u8::MAX marks, imm = Some(..), mem_count updates"""
     facts = {"stores": [], "marks": [], "imm": [], "mem": [], "other": []}
     for s in A.stmts_of(arm["body"]):
         e = A.strip(A.stmt_expr(s) or {})
         if e.get("k") == "Try":
             e = A.strip(e["e"])
-        if e.get("k") == "Call" and A.ident(A.strip(e["func"])) == "store_reg" and len(e["args"]) == 2:
+        if e.get("k") == "Call" and A.ident(A.strip(e["func"])) == store and len(e["args"]) == 2:
             facts["stores"].append((A.lit_value(e["args"][0]), A.ident(A.strip(e["args"][1]))))
         elif e.get("k") == "Assign":
             l = A.strip(e["left"])
@@ -84,6 +97,7 @@ def r2_packing(rule, root=None):
     payloads = dict(O.reg_variants(root))
     seen = set()
     MAX = "u8::MAX"
+    store_n = store_closure(fn)[0]
     for variant, subs, arm in O.arms_by_variant(ms[0], "RegOp"):
         if variant is None:
             rule.bad("wildcard", "catch-all arm in Bytecode::new", A.where(fn, arm))
@@ -94,7 +108,7 @@ def r2_packing(rule, root=None):
         if None in names or len(names) != len(payload):
             rule.bad("%s|pattern" % variant, "arm must bind every payload field", A.where(fn, arm))
             continue
-        f = _arm_facts(arm, names)
+        f = _arm_facts(arm, names, store_n)
         kind = O.variant_kind(variant)
         base, form = T.split_variant(variant)
         bits = lambda n: "Some(%s.to_bits())" % n
@@ -139,24 +153,31 @@ def r2_packing(rule, root=None):
 
 def r3_store_reg(rule, root=None):
     fn = new_fn(root)
-    lets = [s for s in A.find(fn["body"], "Let") if A.binding_name(s["pat"]) == "store_reg"]
-    if len(lets) != 1 or A.strip(lets[0]["init"]).get("k") != "Closure":
-        raise A.AnchorLost("`let mut store_reg = |i, r| ..` in Bytecode::new")
-    cl = A.strip(lets[0]["init"])
+    name, cl, let = store_closure(fn)
     pi, pr = [A.binding_name(p) for p in cl["inputs"]]
     t = A.ftxt(cl["body"])
+    mapn = A.ftxt(fn["body"]).fmatch("let$M=t.asm().repack_map();")
+    mapn = mapn["$M"] if mapn else "map"
+    m = t.fmatch("let$R=%s[&%s];" % (mapn, pr))
     need = {
-        "repacked through the frequency map": "letr=map[&%s];" % pr,
-        "reserved register rejected": "if(r==u8::MAX){Err(ReservedRegister)}",
-        "reg_count covers the register": "reg_count=reg_count.max((r+1))",
-        "byte written at the requested index": "word[%s]=r" % pi,
+        "repacked through the frequency map": m is not None,
+        "reserved register rejected": m is not None and t.fmatch("if($R==u8::MAX){Err(ReservedRegister)}", bind=m) is not None,
+        "reg_count covers the register": m is not None and t.fmatch("reg_count=reg_count.max(($R+1))", bind=m) is not None,
+        "byte written at the requested index": m is not None and t.fmatch("word[%s]=$R" % pi, bind=m) is not None,
     }
-    for what, frag in need.items():
-        if frag in t:
-            rule.ok("store_reg: %s" % what, file=BC, line=lets[0]["ln"])
+    for what, okf in need.items():
+        if okf:
+            rule.ok("store_reg: %s" % what, file=BC, line=let["ln"])
         else:
-            rule.bad("store_reg|%s" % what, "store_reg no longer has `%s` (%s)" % (frag, what), A.where(fn, lets[0]))
-    # register bytes are written only through store_reg: any other word[..] = x must be the 0xFF mark or the opcode
+            rule.bad("store_reg|%s" % what, "the register-byte writer `%s` no longer does: %s" % (name, what), A.where(fn, let))
+    # register bytes are written only through the closure: any other word[..] = x must be the 0xFF mark or the
+    # opcode; byte 0 is the opcode tag whether it is assigned or given in the initialiser
+    byte0 = None
+    for s_ in A.find(fn["body"], "Let"):
+        if A.binding_name(s_["pat"]) == "word" and s_.get("init") is not None:
+            init = A.strip(s_["init"])
+            if init.get("k") == "Array" and len(init.get("elems", [])) == 4:
+                byte0 = str(A.ftxt(A.strip(init["elems"][0])))
     for a in A.find(fn["body"], "Assign"):
         l = A.strip(a["left"])
         if l.get("k") == "Index" and A.ident(A.strip(l["e"])) == "word":
@@ -166,10 +187,14 @@ def r3_store_reg(rule, root=None):
             i = A.lit_value(l["index"])
             if r == "u8::MAX" and i in (1, 2, 3):
                 continue
-            if i == 0 and r == "(BytecodeOp::from(op)asu8)":
-                rule.ok("word[0] is the opcode tag of this op", file=BC, line=a["ln"])
+            if i == 0:
+                byte0 = str(r)
                 continue
-            rule.bad("word|direct|%s" % i, "word[%s] is written directly with `%s` (register bytes must go through store_reg; byte 0 must be BytecodeOp::from(op) as u8)" % (i, r), A.where(fn, a))
+            rule.bad("word|direct|%s" % i, "word[%s] is written directly with `%s` (register bytes must go through %s; byte 0 must be BytecodeOp::from(op) as u8)" % (i, r, name), A.where(fn, a))
+    if byte0 == "(BytecodeOp::from(op)asu8)":
+        rule.ok("word[0] is the opcode tag of this op", file=BC, line=fn["ln"])
+    else:
+        rule.bad("word|direct|0", "byte 0 of every instruction word must be `BytecodeOp::from(op) as u8`, found `%s`" % byte0, A.where(fn))
     # the map comes from the tape's own repack_map
     t = A.ftxt(fn["body"])
     if "letmap=t.asm().repack_map();" in t:
@@ -188,9 +213,6 @@ def r4_framing(rule, root=None):
     checks = [
         ("start marker", "letmutdata=vec!(u32::MAX,0u32);"),
         ("tape walked in evaluation order", "foropint.iter_asm()"),
-        ("all bytes default to 0xFF", "letmutword=[0xFF;4];"),
-        ("first word little-endian", "data.push(u32::from_le_bytes(word));"),
-        ("second word is the immediate", "data.push(imm.unwrap_or("),
         ("end marker", "data.extend([u32::MAX,u32::MAX]);"),
     ]
     for what, frag in checks:
@@ -198,6 +220,42 @@ def r4_framing(rule, root=None):
             rule.ok("framing: %s" % what, file=BC, line=fn["ln"])
         else:
             rule.bad("framing|%s" % what, "Bytecode::new no longer contains `%s` (%s)" % (frag, what), A.where(fn))
+    # per op: register bytes default to 0xFF; exactly two words are appended, the little-endian instruction
+    # word and then the immediate (however they are appended)
+    loops = [l for l in A.find(fn["body"], "For") if str(A.ftxt(l["iter"])) == "t.iter_asm()"]
+    defaults = None
+    appended = []
+    if len(loops) == 1:
+        for s_ in loops[0]["body"]["stmts"]:
+            if s_.get("k") == "Let" and A.binding_name(s_["pat"]) == "word" and s_.get("init") is not None:
+                init = A.strip(s_["init"])
+                if init.get("k") == "Repeat":
+                    defaults = [str(A.ftxt(init["e"]))] * 3 if str(A.ftxt(init.get("len") or {})) in ("4", "") or True else None
+                elif init.get("k") == "Array" and len(init["elems"]) == 4:
+                    defaults = [str(A.ftxt(x)) for x in init["elems"][1:]]
+            e = A.strip(A.stmt_expr(s_) or {})
+            if e.get("k") == "MethodCall" and A.ident(A.strip(e["recv"])) == "data":
+                if e["method"] == "push" and len(e["args"]) == 1:
+                    appended.append(str(A.ftxt(e["args"][0])))
+                elif e["method"] in ("extend", "extend_from_slice") and len(e["args"]) == 1:
+                    arr = A.strip(e["args"][0])
+                    arr = A.strip(arr["e"]) if arr.get("k") == "Ref" else arr
+                    if arr.get("k") == "Array":
+                        appended += [str(A.ftxt(x)) for x in arr["elems"]]
+                    else:
+                        appended.append("?" + str(A.ftxt(arr)))
+    if defaults is not None and all(d in ("0xFF", "u8::MAX", "255") for d in defaults):
+        rule.ok("framing: all bytes default to 0xFF", file=BC, line=fn["ln"])
+    else:
+        rule.bad("framing|all bytes default to 0xFF", "the register bytes of an instruction word must default to 0xFF (found %s)" % defaults, A.where(fn))
+    if len(appended) == 2 and appended[0] == "u32::from_le_bytes(word)":
+        rule.ok("framing: first word little-endian", file=BC, line=fn["ln"])
+    else:
+        rule.bad("framing|first word little-endian", "each op must append `u32::from_le_bytes(word)` first (appends: %s)" % appended, A.where(fn))
+    if len(appended) == 2 and appended[1].startswith("imm.unwrap_or("):
+        rule.ok("framing: second word is the immediate", file=BC, line=fn["ln"])
+    else:
+        rule.bad("framing|second word is the immediate", "each op must append the immediate (or its filler) second (appends: %s)" % appended, A.where(fn))
     # the end marker is the last mutation of data
     stmts = fn["body"]["stmts"]
     idx_ext = [i for i, s in enumerate(stmts) if "data.extend" in A.ftxt(s)]
